@@ -13,7 +13,8 @@ RULE = ('enumeration of 13 injections (success; malformed bytes; bad envelope; u
         'method_call listener raising Fault/non-Fault at app/service/method level; method_return_object listener raising; '
         'function raising Fault/non-Fault; unserialisable return) x 9 protocol configurations x {ServerBase, WSGI} x 4 '
         'listener layouts (application only; all levels; every listener registered twice; listeners inherited from a grandparent and two unrelated bases; listeners registered at every level after a first call); non-trivial when the application-level trace contains created and closed; distinct by '
-        '(protocol, driver, layout, injection, observed trace shape).')
+        '(protocol, driver, layout, injection, observed trace shape).'
+        ' Now 23 injections: also generator functions failing before / after their first item and methods declaring 0, 2, 3 return values; 5 listener layouts.')
 ASSUMPTIONS = [
     'relative order BETWEEN managers (application vs service vs method) is not stated by the property and not judged',
     'for the unserialisable-return injection presence of method_exception_object is recorded, not judged (origin not enumerated by the statement)',
